@@ -100,7 +100,7 @@ class Msg(abc.ABC):
 
 	def rand_fn(self):
 		''' Generate a random frame number. '''
-		return random.randint(0, GSM_HYPERFRAME)
+		return random.randint(0, GSM_HYPERFRAME - 1)
 
 	def rand_tn(self):
 		''' Generate a random timeslot number. '''
@@ -164,7 +164,7 @@ class Msg(abc.ABC):
 		if self.fn is None:
 			raise ValueError("TDMA frame-number is not set")
 
-		if self.fn < 0 or self.fn > GSM_HYPERFRAME:
+		if self.fn < 0 or self.fn >= GSM_HYPERFRAME:
 			raise ValueError("TDMA frame-number %d is out of range" % self.fn)
 
 		if self.tn is None:
